@@ -1,4 +1,4 @@
-import Echse.Model.RrFill
+import Echse.Model.RrStrm
 import Driver.Util
 import Driver.Rrule
 open Echse.Rrule Echse.Instant
@@ -41,6 +41,24 @@ def runRrFill (args : List String) : String :=
     | some r, some p =>
       match fill r (Inst.unpack p) nti with
       | some l => s!"n={l.length}" ++ (if l.isEmpty then "" else " " ++ joinWith "," (l.map fun i => toHex16 i.pack))
+      | none => "unmodelled"
+    | _, _ => "bad-op"
+  | _ => "bad-op"
+
+/-- `r.strm RULE-TOKENS | from=HEX n=N` : the first N occurrences of the rule stream, `-` marks its end -/
+def runRrStrm (args : List String) : String :=
+  match splitBars args with
+  | [rule, rest] =>
+    let from_ := rest.findSome? fun t => if t.startsWith "from=" then parseHex? (t.drop 5).toString else none
+    let n := (rest.findSome? fun t => if t.startsWith "n=" then (t.drop 2).toString.toNat? else none).getD 10
+    if rest.any (fun t => t.startsWith "zone=" ∨ t.startsWith "scale=" ∨ t.startsWith "ds=") then "unmodelled" else
+    match parseRule rule, from_ with
+    | some r, some p =>
+      match pops n (mkStrm r (Inst.unpack p)) with
+      | some (l, ended) =>
+        let xs := l.map fun i => toHex16 i.pack
+        let xs := if ended then xs ++ ["-"] else xs
+        if xs.isEmpty then "-" else joinWith "," xs
       | none => "unmodelled"
     | _, _ => "bad-op"
   | _ => "bad-op"
